@@ -362,4 +362,40 @@ theorem pickIdx_spec (base idx out : List Nat) (h : pickIdx base idx = .ok out) 
         · exact List.mem_of_getElem? hb
         · exact s j hj
 
+/-! ## Offsets of `_find_matching_anchors` -/
+
+/-- Total length of the fixed / mobile chains of a list of chain records. -/
+def sumF (cs : List (Nat × Nat × List (Nat × Nat))) : Nat := (cs.map (·.1)).sum
+def sumM (cs : List (Nat × Nat × List (Nat × Nat))) : Nat := (cs.map (·.2.1)).sum
+
+theorem matchAnchorsFrom_append (pre rest : List (Nat × Nat × List (Nat × Nat))) (oF oM : Nat) :
+    matchAnchorsFrom (pre ++ rest) oF oM
+      = matchAnchorsFrom pre oF oM ++ matchAnchorsFrom rest (oF + sumF pre) (oM + sumM pre) := by
+  induction pre generalizing oF oM with
+  | nil => simp [matchAnchorsFrom, sumF, sumM]
+  | cons c pre ih =>
+    obtain ⟨lf, lm, ps⟩ := c
+    simp only [List.cons_append, matchAnchorsFrom, ih, sumF, sumM, List.map_cons, List.sum_cons,
+      List.append_assoc, Nat.add_assoc]
+
+theorem matchAnchorsFrom_range (cs : List (Nat × Nat × List (Nat × Nat))) (oF oM : Nat)
+    (h : ∀ c ∈ cs, ∀ p ∈ c.2.2, p.1 < c.1 ∧ p.2 < c.2.1) :
+    ∀ p ∈ matchAnchorsFrom cs oF oM, (oF ≤ p.1 ∧ p.1 < oF + sumF cs) ∧ (oM ≤ p.2 ∧ p.2 < oM + sumM cs) := by
+  induction cs generalizing oF oM with
+  | nil => simp [matchAnchorsFrom]
+  | cons c cs ih =>
+    obtain ⟨lf, lm, ps⟩ := c
+    intro p hp
+    simp only [matchAnchorsFrom, List.mem_append, offsetPairs, List.mem_map] at hp
+    simp only [sumF, sumM, List.map_cons, List.sum_cons]
+    rcases hp with ⟨q, hq, rfl⟩ | hp
+    · have := h (lf, lm, ps) (by simp) q hq
+      simp only at this
+      have h1 := Nat.zero_le (List.map (fun x => x.1) cs).sum
+      have h2 := Nat.zero_le (List.map (fun x => x.2.1) cs).sum
+      omega
+    · have := ih (oF + lf) (oM + lm) (fun c hc => h c (by simp [hc])) p hp
+      simp only [sumF, sumM] at this
+      omega
+
 end BiotiteModel.C16
